@@ -42,8 +42,13 @@ class PandasMaterializer(FormulaMaterializer):
     @override
     def _is_categorical(self, values: Any) -> bool:
         if isinstance(values, (pandas.Series, pandas.Categorical)):
-            return values.dtype == object or isinstance(
-                values.dtype, pandas.CategoricalDtype
+            # Text can be stored as Python objects or in one of the dedicated
+            # string dtypes (`str`/`string[...]`, the default for text in
+            # pandas 3, or an Arrow-backed string).
+            return (
+                values.dtype == object
+                or isinstance(values.dtype, pandas.CategoricalDtype)
+                or pandas.api.types.is_string_dtype(values.dtype)
             )
         return super()._is_categorical(values)
 
